@@ -230,8 +230,14 @@ def map_configs(draw, tree_data, n_cells, factor=None, allow_flatten=True, allow
     drop = None
     if allow_drop and not flatten and len(h) > 1 and draw(st.integers(0, 3)) == 0:
         drop = draw(st.sampled_from(h[:-1] + ['no_such_level']))
+    lookup = None
     if factor is None:
         factor = draw(st.sampled_from([1.0, 0.9, 0.9, 0.75, 0.75, 0.5, 0.5, 0.33, 0.1]))
+        if draw(st.integers(0, 3)) == 0:
+            # a bootstrap factor per level ('None' = the root); levels of the stored hierarchy, so that the
+            # lookup is also complete for the flattened / level-dropped tree
+            fs = [1.0, 0.9, 0.75, 0.5, 0.33]
+            lookup = [['None', draw(st.sampled_from(fs))]] + [[lv, draw(st.sampled_from(fs))] for lv in h[:-1]]
     return {
         'flatten': flatten,
         'drop_level': drop,
@@ -240,6 +246,7 @@ def map_configs(draw, tree_data, n_cells, factor=None, allow_flatten=True, allow
         'n_runners_up': draw(st.integers(0, 4)),
         'bootstrap_iteration': draw(st.sampled_from([i for i in (1, 2, 3, 5, 8, 12) if i <= max(1, max_iter)])),
         'bootstrap_factor': factor,
+        'bootstrap_factor_lookup': lookup,
         'min_markers': draw(st.integers(1, 6)),
         'normalization': 'raw',
         'rng_seed': draw(st.integers(0, 2**31 - 1)),
